@@ -43,7 +43,7 @@ def run_task(task, mod):
         return specs.conj(net, parts), info
     cube = [net.bits[i] if v else z3.Not(net.bits[i]) for i, v in task.get("cube", [])]
     res = explore(net, harness, extra_vars=vs + extra_vs, extra_constraints=cs + extra_cs, cube=cube,
-                  timebox=task["timebox"], seed=task.get("seed", 0), label=task["label"],
+                  timebox=task["timebox"], seed=task.get("seed", 0) + 7919 * int(task["params"].get("solver_seed", 0)), label=task["label"],
                   start_at=task.get("start_at"), max_classes=task.get("max_classes"))
     res["violations"] = res["violations"][:4] + [{"rules": v["rules"], "hist": v["hist"], "kind": v["kind"]} for v in res["violations"][4:40]]
     return res
